@@ -1171,6 +1171,9 @@ def _might_have_parameter(fn_or_cls, arg_name):
   Returns:
     Whether `arg_name` might be a valid argument of `fn`.
   """
+  if not isinstance(arg_name, str):
+    # Only a string can name a parameter (`**kwargs` does not take other keys).
+    return False
   if inspect.isclass(fn_or_cls):  # pytype: disable=wrong-arg-types
     fn = _find_class_construction_fn(fn_or_cls)
   else:
